@@ -29,7 +29,8 @@ FIXED_KINDS = ('exh',)   # the exhaustive part is never scaled down
 NO_RUN_ALARM = True      # this scenario uses SIGALRM itself (unservable indices may loop forever)
 RULE = ('exh: for high in 1..8 and 24 master seeds, ALL indices < high and ALL index sequences '
         'of length <= 4 (<= 3 for high >= 6) sharing one cache (collisions in the draw stream '
-        'are forced), plus unservable indices (== high, > high, negative) - exhaustive for that '
+        'are forced), plus unservable indices (== high, > high, negative, numpy integers a '
+        'multiple of 2**32 away from a valid index, fractional) - exhaustive for that '
         'bounded space. hist: sampled histories of <= 40 indices (increasing / repeated / '
         'decreasing / jumping, tape-chosen; indices up to 500) on one shared cache, high in '
         '{2**31, 2**32, 2**16+1, 5000, 1000, 300, 50, 12}. '
@@ -90,12 +91,12 @@ def check_sequence(out, get_sub_seed, seed, high, seq, ref):
         try:
             v = call(get_sub_seed, seed, i, high, cache)
         except Exception as e:
-            out.violate('cache-independent', 'raises', seed=seed, high=high, seq=list(seq[:pos + 1]),
+            out.violate('cache-independent', 'raises', seed=seed, high=high, seq=[int(x) for x in seq[:pos + 1]],
                         error='%s: %s' % (type(e).__name__, str(e)[:100]))
             return False
         if v != ref[i]:
             clause = 'history-independent' if pos > 0 else 'cache-independent'
-            out.violate(clause, '', seed=seed, high=high, seq=list(seq[:pos + 1]), got=v,
+            out.violate(clause, '', seed=seed, high=high, seq=[int(x) for x in seq[:pos + 1]], got=v,
                         expected=ref[i])
             return False
     return True
@@ -141,19 +142,30 @@ def run_exh(tape, out, idx):
     if len(set(vals)) != len(vals):
         out.violate('distinct', '', seed=seed, high=high, values=vals)
     # unservable indices
-    for bad in (high, high + 1, high + 7, -1, -2):
+    bads = [high, high + 1, high + 7, -1, -2]
+    # indices that only LOOK servable after a narrowing conversion: numpy integers a multiple
+    # of 2**32 away from a valid index, and fractional indices
+    k = seed % high
+    bads += [np.int64(2 ** 32 + k), np.uint64(2 ** 32 + k), np.int64(5 * 2 ** 32 + k),
+             np.int64(k - 2 ** 32), np.int64(high), np.int64(-1), k + 0.5, np.float64(k + 0.25)]
+    for bad in bads:
         for cache in (None, {}):
             try:
                 with _deadline(5):
                     v = call(get_sub_seed, seed, bad, high, cache)
-            except (ValueError, TypeError, IndexError):
+            except (ValueError, TypeError, IndexError, OverflowError):
                 n += 1
                 continue
             except _Hang:
-                out.violate('rejects-unservable', 'hangs', seed=seed, high=high, index=bad)
+                out.violate('rejects-unservable', 'hangs', seed=seed, high=high,
+                            index=repr(bad))
                 return
-            out.violate('rejects-unservable', 'negative' if bad < 0 else 'too-large', seed=seed,
-                        high=high, index=bad, returned=v)
+            what = 'negative' if bad < 0 else ('fractional' if isinstance(
+                bad, (float, np.floating)) else 'too-large')
+            if isinstance(bad, np.integer):
+                what += '-numpy-integer'
+            out.violate('rejects-unservable', what, seed=seed, high=high, index=repr(bad),
+                        returned=v)
     # every index sequence of bounded length on one shared cache
     maxlen = 4 if high < 6 else 3
     for ln in range(1, maxlen + 1):
@@ -199,8 +211,15 @@ def run_hist(tape, out):
     seed = tape.int('seed', 0, 2 ** 31 - 1)
     pattern, seq = gen_index_history(tape, high)
     ref = ref_values(seed, high, max(seq) + 1)
+    if tape.chance('numpy_typed_indices', 1, 4):
+        # batch indices often come out of numpy (arange, argmax ...): same seeds
+        ty = tape.choice('index_type', [np.int64, np.int32, np.uint32, np.intp])
+        typed = [ty(i) for i in seq]
+        out.probes['numpy_typed_indices'] += 1
+    else:
+        typed = seq
     ok = check_sequence(out, get_sub_seed, seed, high if high != 2 ** 31 or tape.chance(
-        'explicit_high', 1, 2) else None, seq, ref)
+        'explicit_high', 1, 2) else None, typed, ref)
     if ok:
         # fresh cache per request and no cache at all give the same values
         for i in sorted(set(seq))[:8]:
